@@ -8,7 +8,11 @@ weights are `List Rat` aligned with the rows / with `index`.
 Everything about the parity moments is parameterised by the per-row event `ev : Row → Option String`
 (`none` = the row's `event` tag is NaN, i.e. the row belongs to no event):
   * `eventOf k`         the documented rule (a NaN base event stays NaN when control features are merged),
-  * `eventOfAsCoded k`  what `_combine_event_and_control` does at the pinned commit: `Series.combine` calls it
+  * `eventOfSrc k`      what `_merge_event_and_control_columns` / `_combine_event_and_control` compute, LIFTED from the
+                        source (`MomentsSrc.mergeEvent` / `combineEvent`, incl. the notnull guard of the F3 repair).
+                        This is what the driver's mode `spec` runs; `C06.event_rule_lifted` proves it equal to
+                        `eventOf k`, so every theorem about `eventOf` is a theorem about the lifted text,
+  * `eventOfAsCoded k`  what `_combine_event_and_control` did BEFORE the F3 repair: `Series.combine` calls it
                         on every row and `"control={0},{1}".format(c, nan)` turns a NaN event into the string
                         `control=c,nan` (finding F3).
 The arithmetic of `U`, `gamma`, `signed_weights`, the loss functions and the string constants are taken
@@ -17,6 +21,8 @@ from `Generated/MomentsSrc.lean`, which the translator regenerates from the Pyth
 import FairModel.Model.Proto
 import FairModel.Generated.MomentsSrc
 import FairModel.Generated.LossRange
+import FairModel.Generated.ProjectLambdaSrc
+import FairModel.Generated.ValidationTables
 
 namespace Moments
 
@@ -70,8 +76,13 @@ def eventOf (k : Kind) (r : Row) : Option String :=
   | some e, none => some e
   | some e, some c => some (MomentsSrc.ctrlFormat c e)
 
+/-- the code: `event = _merge_event_and_control_columns(base_event, cf_train)`, row by row, as lifted from the source
+    (`r.c = none`: no control features were passed, or this row's control value is null) -/
+def eventOfSrc (k : Kind) (r : Row) : Option String :=
+  MomentsSrc.mergeEvent r.c.isSome (baseEvent k r) r.c
+
 /-- Python's `str.format` of a NaN event -/
-def nanText : String := "nan"
+def nanText : String := MomentsSrc.nanText
 
 /-- the code as written (`_combine_event_and_control` is applied to every row by `Series.combine`):
     with a non-null control value the event is *always* formatted, a NaN event as the text "nan" -/
@@ -175,11 +186,11 @@ def signedWeights (ev : Ev) (rows : List Row) (ratio : Rat) (ut : Util) (lam : L
 def clip0 (x : Rat) : Rat := if x < 0 then 0 else x
 
 /-- `project_lambda` on the two halves (`lambda_vec["+"]`, `lambda_vec["-"]`) of the multiplier vector:
-    identity unless `ratio == 1.0` -/
+    identity unless `ratio == 1.0`; guard and entry formulas are the lifted text of the method
+    (`Generated/ProjectLambdaSrc.lean`); `Lemmas/ProjectLambda.lean` relates them to `clip0` -/
 def projectLambda (ratio : Rat) (lp lm : List Rat) : List Rat × List Rat :=
-  if ratio = 1 then
-    let pos := List.zipWith (· - ·) lp lm
-    (pos.map clip0, pos.map (fun x => clip0 (-x)))
+  if ProjectLambdaSrc.projects ratio then
+    (List.zipWith ProjectLambdaSrc.posOf lp lm, List.zipWith ProjectLambdaSrc.negOf lp lm)
   else (lp, lm)
 
 /-- the same on the flat vector in `index` order -/
@@ -188,16 +199,21 @@ def projectLambdaFlat (ratio : Rat) (lam : List Rat) : List Rat :=
   let p := projectLambda ratio (lam.take m) (lam.drop m)
   p.1 ++ p.2
 
-/-- constructor logic of `UtilityParity.__init__`: returns (eps, ratio) -/
-inductive CfgErr where | bothBounds | ratioRange
+/-- constructor logic of `UtilityParity.__init__`: returns (eps, ratio).  Computed with the LIFTED branches:
+    `parityCtor` (accept / reject of the if / elif chain), `parityEps` (the slack stored), `slackMustBeNonneg` (the
+    trailing `if self.eps < 0: raise`, fairlearn c80f72a) from `Generated/ValidationTables.lean` and `parityRatio` from
+    `Generated/MomentsSrc.lean`.  Which ValueError it is (`bothBounds` / `ratioRange`) is a label of the model only. -/
+inductive CfgErr where | bothBounds | ratioRange | negSlack
 deriving Repr, DecidableEq
 
 def mkConfig (diffBound ratioBound : Option Rat) (slack : Rat) : Except CfgErr (Rat × Rat) :=
-  match diffBound, ratioBound with
-  | none, none => .ok (MomentsSrc.defaultDifferenceBound, 1)
-  | some d, none => .ok (d, 1)
-  | none, some r => if 0 < r ∧ r ≤ 1 then .ok (slack, r) else .error .ratioRange
-  | some _, some _ => .error .bothBounds
+  let dg := diffBound.isSome
+  let rg := ratioBound.isSome
+  if Generated.ValidationTables.parityCtor dg rg (ratioBound.getD 0) then
+    let eps := Generated.ValidationTables.parityEps dg rg (diffBound.getD 0) slack
+    if Generated.ValidationTables.slackMustBeNonneg && decide (eps < 0) then .error .negSlack
+    else .ok (eps, MomentsSrc.parityRatio dg rg (ratioBound.getD 0))
+  else if dg && rg then .error .bothBounds else .error .ratioRange
 
 /-! ### basis used by GridSearch (`pos_basis`, `neg_basis`) -/
 
@@ -232,8 +248,9 @@ def errWeights (fp fn : Rat) (ys : List Rat) (lam : Option Rat) : List Rat :=
   | none => ys.map (MomentsSrc.objWeight fp fn)
   | some l => ys.map (fun y => l * MomentsSrc.objWeight fp fn y)
 
-/-- `ErrorRate.__init__` accepts costs iff both are non-negative and not both zero -/
-def costsOk (fp fn : Rat) : Bool := decide (0 ≤ fp) && decide (0 ≤ fn) && decide (0 < fp + fn)
+/-- `ErrorRate.__init__` on a `costs` dict with exactly the keys `fp`, `fn` (lifted: `errorRateCtor` of
+    `Generated/ValidationTables.lean`); `C06.costs_ok_iff`: accepted iff both are non-negative and not both zero -/
+def costsOk (fp fn : Rat) : Bool := Generated.ValidationTables.errorRateCtor true true true fp fn
 
 /-! ### BoundedGroupLoss / MeanLoss -/
 
@@ -329,10 +346,10 @@ def parseKind (s : String) : Option Kind :=
   | "dp" => some .dp | "tpr" => some .tpr | "fpr" => some .fpr | "eo" => some .eo | "erp" => some .erp
   | _ => none
 
-/-- `spec` = documented event rule, `coded` = `_combine_event_and_control` as written -/
+/-- `spec` = the event rule lifted from the source (= the documented rule, `C06.event_rule_lifted`), `coded` = `_combine_event_and_control` as it was written before the F3 repair -/
 def parseMode (s : String) (k : Kind) : Option Ev :=
   match s with
-  | "spec" => some (eventOf k) | "coded" => some (eventOfAsCoded k)
+  | "spec" => some (eventOfSrc k) | "coded" => some (eventOfAsCoded k)
   | _ => none
 
 def parseCtl (s : String) (n : Nat) : Option (List (Option String)) :=
@@ -374,7 +391,7 @@ def mkLRows (ys : List Rat) (gs : List String) : Option (List LRow) :=
   if ys.length = gs.length && !ys.isEmpty then some ((ys.zip gs).map (fun (a, b) => ⟨a, b⟩)) else none
 
 /-- ops (all prefixed `mom.`):
-  `mom.cfg <diff|none> <ratio|none> <slack>`                 -> `ok <eps> <ratio>` | `err:bothbounds` | `err:ratio`
+  `mom.cfg <diff|none> <ratio|none> <slack>`                 -> `ok <eps> <ratio>` | `err:bothbounds` | `err:ratio` | `err:negslack`
   `mom.index <kind> <mode> <ys> <gs> <cs|none>`              -> keys
   `mom.events <kind> <mode> <ys> <gs> <cs|none>`             -> per-row event (`nan` for none)
   `mom.gamma <kind> <mode> <ratio> <ys> <gs> <cs> <h>`       -> rats (index order)
@@ -400,6 +417,7 @@ def handle (toks : List String) : Option String :=
     | .ok (eps, ratio) => pure ("ok " ++ fmtRat eps ++ " " ++ fmtRat ratio)
     | .error .bothBounds => pure "err:bothbounds"
     | .error .ratioRange => pure "err:ratio"
+    | .error .negSlack => pure "err:negslack"
   | ["mom.index", k, mode, ys, gs, cs] => do
     let (_, ev, rows) ← parseData k mode ys gs cs
     pure (fmtList fmtKey (index ev rows))
